@@ -169,10 +169,10 @@ func init() {
 			"end-of-line assertion or a recorded error (R-EOLSTATE, path-sensitive typestate over every parser function with verified callee " +
 			"contracts); evaluation is gated on an error-free parse in the library entry point and in `evy run`, which reports on stderr with " +
 			"status 1 and writes no SVG for a rejected program (R-PARSEGATE); a list of parsed expressions is handed on whole or an error is recorded, so extra " +
-			"operands are never accepted and dropped (R-LISTUSE); an empty literal never makes operands of different kinds match (R-TYPEREL).",
+			"operands are never accepted and dropped (R-LISTUSE); an empty literal never makes operands of different kinds match (R-TYPEREL); a declaration enters the scope only on the edge where the validator accepted it, and the validator tests built-in globals, the current scope and function names unconditionally (R-DECLCHECK).",
 		NotDecided:  "That each static check's predicate is right for every program (scope, type and termination predicates are value-level).",
 		Assumptions: []string{"advancePastNL is the only routine that discards more than one token"},
-		Rules:       []*Rule{ruleEOLState, ruleParseGate, ruleTermConj, ruleScopePairParser, ruleListUse, ruleTypeRel, ruleBlindAdv},
+		Rules:       []*Rule{ruleEOLState, ruleParseGate, ruleTermConj, ruleScopePairParser, ruleListUse, ruleTypeRel, ruleBlindAdv, ruleDeclCheck},
 	})
 }
 
@@ -196,10 +196,10 @@ func init() {
 			"every expression-node, variable and return-type constructor (R-FIXED); every acceptance is followed by wrapAny with the same target " +
 			"(R-ACCEPTWRAP); inference of a map literal's type does not depend on Go map order (R-MAPRANGE); fixed types are concrete (R-CONCRETE); in accepts and " +
 			"matches the wildcard cases (empty literal, generic parameter) apply only between types of the same kind (R-TYPEREL); range operands are consumed whole " +
-			"or diagnosed (R-LISTUSE).",
+			"or diagnosed (R-LISTUSE); declarations pass the validator on the accepting edge (R-DECLCHECK).",
 		NotDecided:  "The content of accepts/matches/combineTypes (which cells of the matrix are true) and the operand checks' predicates — value-level.",
 		Assumptions: []string{},
-		Rules:       []*Rule{ruleFixed, ruleConcrete, ruleTypeRel, ruleAcceptWrap, ruleMapRange, ruleListUse, ruleAssignTarget},
+		Rules:       []*Rule{ruleFixed, ruleConcrete, ruleTypeRel, ruleAcceptWrap, ruleMapRange, ruleListUse, ruleAssignTarget, ruleDeclCheck},
 	})
 	Register(&Property{
 		ID: "C06",
@@ -237,10 +237,10 @@ func init() {
 			"of an any are comma-ok (R-BUILTINSIG); user numbers reach integer conversions and allocation sizes only through NaN/Inf/fraction-safe " +
 			"guards (R-F2I with its allocation clause, evaluator); eval has a case for every node kind the parser defines and fails with an error " +
 			"otherwise (R-EXHAUST/eval) and consumes every child field of every node type (R-FIELDCOV/eval); accepted values enter any-typed slots only through wrapAny (R-ACCEPTWRAP); non-literal expressions never " +
-			"carry a convertible type into wrapAny (R-FIXED); scopes are paired so a variable's run-time value has its static type (R-SCOPEPAIR/evaluator).",
+			"carry a convertible type into wrapAny (R-FIXED); scopes are paired so a variable's run-time value has its static type (R-SCOPEPAIR/evaluator); every variable enters a static scope through the declaration validator, which never lets a name shadow a built-in global, a function or a variable of the same scope (R-DECLCHECK); containers built by the evaluator own their storage, so no operation on one value corrupts the representation of another (R-FRESH).",
 		NotDecided:  "That the parser's typing of operands matches the evaluator's assertions in evalBinaryExpr/normalizeIndex beyond the operator matrix, panics inside the Go standard library for exotic values, memory exhaustion.",
 		Assumptions: []string{"element assertions inside array arguments (poly) are not checked"},
-		Rules:       []*Rule{ruleBuiltinSig, f2iRule("pkg/evaluator", 4), exhaustRule("eval", 25), fieldCovRule("eval"), ruleAcceptWrap, ruleFixed, ruleScopePairEval, ruleMapEq, ruleTermConj, ruleEvalMisc, ruleAssignTarget},
+		Rules:       []*Rule{ruleBuiltinSig, f2iRule("pkg/evaluator", 4), exhaustRule("eval", 25), fieldCovRule("eval"), ruleAcceptWrap, ruleFixed, ruleScopePairEval, ruleMapEq, ruleTermConj, ruleEvalMisc, ruleAssignTarget, ruleDeclCheck, ruleFresh},
 	})
 	Register(&Property{
 		ID: "C13",
